@@ -1084,15 +1084,8 @@ fn main() {
             let tl = sys.tc[0].min(sys.tc[1]);
             let th = sys.tc[0].max(sys.tc[1]);
             let tsc = (tl + rng.range(0.1, 0.6) * (th - tl)) / tl;
-            if let Some((case, dia)) = record_binary(sys, tsc, 8 + rng.below(8), None) {
-                for s in &dia.states {
-                    if end_id_dir(s, true).is_none() && !is_crit(s) {
-                        let x1 = s.liquid().molefracs[0];
-                        let t = s.vapor().temperature.to_reduced();
-                        let alone = bubble_at(&sys.eos, t, x1, None, None);
-                        st.cmp("binary_vle (supercritical light component) state vs stand-alone bubble_point", json!({"system": sys.name, "T": t, "x1": x1, "npoints": case.info["npoints"]}), &Ok(vle_vec(s)), &vv(&alone), TOL_BD);
-                    }
-                }
+            // (outside the property's temperature window: bookkeeping tie only, no numerical comparison)
+            if let Some((case, _dia)) = record_binary(sys, tsc, 8 + rng.below(8), None) {
                 ties.push(case);
             }
         }
@@ -1101,6 +1094,9 @@ fn main() {
         if let Some((case, dia)) = record_bubble_line(sys, x1, rng.range(0.6, 0.7), 6 + rng.below(4)) {
             for (k, c) in case.calls.iter().enumerate() {
                 let t = c.spec[1];
+                if t > 0.95 * sys.tc[0].min(sys.tc[1]) {
+                    continue;
+                }
                 let alone = bubble_at(&sys.eos, t, x1, None, None);
                 let key = json!({"system": sys.name, "driver": "PhaseDiagram::bubble_point_line", "x1": x1, "point": k, "T": t, "T_min": case.info["T_min"], "npoints": case.info["npoints"]});
                 match dia.states.iter().find(|s| match_state(Kind::Bd, std::slice::from_ref(c), s) == 0) {
@@ -1303,6 +1299,10 @@ fn main() {
                     // temperature-stage states against the stand-alone dew point
                     for c in case.calls.iter().filter(|c| c.spec[0] == 0.0) {
                         let t = c.spec[1];
+                        // the property's window: T <= 0.95 T_c of the lighter component (above it a dew temperature has two dew pressures)
+                        if t > 0.95 * sys.tc[0].min(sys.tc[1]) {
+                            continue;
+                        }
                         if let Some(s) = dia.states.iter().find(|s| match_state(Kind::Bd, std::slice::from_ref(c), s) == 0) {
                             let alone = dew_at(&sys.eos, t, y1, None, None);
                             st.cmp("dew_point_line state vs stand-alone dew_point(T, y, None, None)", json!({"system": sys.name, "y1": y1, "T": t, "npoints": np}), &Ok(vle_vec(s)), &vv(&alone), TOL_BD);
